@@ -202,6 +202,8 @@ TraphIteratorState.should_yield = lambda self, yield_frequency=1000: True
 
 
 def writes_fingerprint(log):
+    if sum(len(d) for _, _, d in log) > (8 << 20):
+        return 0            # one request wrote more than 8 MiB (no generated request comes near): not hashed byte by byte in Python; never equals the model's
     h = FNV_INIT
     for kind, off, data in log:
         h = ((h ^ kind) * FNV_PRIME) & MASK
